@@ -189,3 +189,25 @@ func expectedInvalidText(tcode int) (string, bool) {
 	}
 	return "u" + strconv.FormatUint(btInvalidRaw(bt), 10), true
 }
+
+// containersKnown: every message type a file container holds must be a message the library knows
+// (otherwise Decode drops, as unknown, messages that Encode writes for that container).
+func containersKnown(res *RunResult) {
+	known := map[int]bool{}
+	for _, m := range theFacts().Msgs {
+		if m.Known {
+			known[m.Num] = true
+		}
+	}
+	n := 0
+	for _, c := range theFacts().Containers {
+		for _, sl := range c.Slots {
+			n++
+			if !known[sl.Msg] {
+				addViolation(res, fmt.Sprintf("container %s field %s", c.Name, sl.Name), fmt.Sprint(sl.Msg),
+					fmt.Sprintf("%s.%s holds messages of number %d, which is not in the library's set of known messages", c.Name, sl.Name, sl.Msg))
+			}
+		}
+	}
+	res.Notes = append(res.Notes, fmt.Sprintf("container fields checked against the known-message set: %d", n))
+}
